@@ -134,6 +134,11 @@ def parse(repo):
         elif op.startswith("/"): kind, k = "OpDivTrunc", m.group(6)
         else: kind, k = "OpWrapMul", m.group(7)
         arms.append((a, b, kind, k))
+    # strictness: every `(Unit, Unit) =>` arm of the match must have been recognised — an arm written in another way must
+    # make the translator say "cannot read this" (exit 2: static tie unavailable), never silently drop out of the table
+    n_arms = len(re.findall(r"\(\s*(?:Nanosecond|Microsecond|Millisecond|Second)\s*,\s*(?:Nanosecond|Microsecond|Millisecond|Second)\s*\)\s*=>", body))
+    if n_arms != len(arms):
+        raise SystemExit("gen_tables: into_unit has %d unit-pair arms, %d recognised" % (n_arms, len(arms)))
     guards = dict(same_unit_identity=bool(re.search(r"if\s+U::unit\(\)\s*==\s*T::unit\(\)", body)),
                   nat_guard=bool(re.search(r"else\s+if\s+self\.is_nat\(\)\s*\{\s*DateTime::nat\(\)", body)))
     td = strip_comments(open(os.path.join(repo, "tea-time/src/timedelta.rs")).read())
@@ -142,6 +147,12 @@ def parse(repo):
         name, acc, fn, acc2, k = m.groups()
         if acc != acc2: raise SystemExit("gen_tables: accumulator mismatch in unit arm %s" % name)
         units.append((name, acc, fn, k))
+    # strictness (see above): every string-literal arm of the unit match must have been recognised
+    i0 = td.find('"ns"')
+    blk = td[i0: td.find("unit =>", i0)] if i0 >= 0 and td.find("unit =>", i0) > 0 else ""
+    n_unit_arms = len(re.findall(r'"\w+"\s*=>', blk))
+    if n_unit_arms != len(units):
+        raise SystemExit("gen_tables: TimeDelta::parse has %d unit arms, %d recognised" % (n_unit_arms, len(units)))
     # datetime.rs: the ordered list of formats DateTime::parse tries, and the default format of strftime
     dts = strip_comments(open(os.path.join(repo, "tea-time/src/datetime.rs")).read())
     m = re.search(r"const\s+TIME_RULE_VEC\s*:\s*\[\s*&str\s*;\s*(\d+)\s*\]\s*=\s*\[(.*?)\]\s*;", dts, flags=re.S)
@@ -212,6 +223,8 @@ def main(argv):
         print("gen_tables: rolling family, shape not recognised: %s" % (e,)); return 2
     except (OSError, ValueError, KeyError) as e:
         print("gen_tables: cannot translate: %r" % (e,)); return 2
+    except SystemExit as e:
+        print(str(e)); return 2
     path = os.path.join(ROOT, "coq", "Gen", "SrcTables.v")
     old = open(path).read() if os.path.exists(path) else None
     if old != text:
